@@ -97,3 +97,13 @@ func (f *file) Close() error {
 	f.h.call(Event{Op: "close", Name: f.name})
 	return f.File.Close()
 }
+
+func (f *file) ReadAt(p []byte, off int64) (int, error) {
+	f.h.call(Event{Op: "readat", Name: f.name})
+	return f.File.ReadAt(p, off)
+}
+
+func (f *file) Slice(start int64, end int64) ([]byte, error) {
+	f.h.call(Event{Op: "slice", Name: f.name})
+	return f.File.Slice(start, end)
+}
